@@ -6,8 +6,15 @@ request in each of 3 prior states and followed by two probe requests (a valid `s
     load x V + missing / directory / undecodable file,  save x V + new file / directory / path below a regular file,
     request without version, non-JSON lines, JSON lines that are not objects, last line without newline
     V = null true 0 -1 3 4 1.5 1e999 "" "x" "3" [] ["x"] [1] {} {"A":1}
+Phase "matrix"/float limits: the float option with a range and the one without x numeric values at and beyond what a double
+holds, as JSON numbers and as strings (1e308, the largest double, 10**308 as an integer | 1e309, +-1e999, the first literal
+that rounds to infinity, integers of 310 / 401 digits, sign / upper-case / blank-padded spellings | underflowing literals)
+and the non-finite words (nan, inf in all 8 capitalisations, infinity in 3 -- thorough: all 256 --, signed, blank-padded;
+the bare tokens NaN / Infinity / -Infinity that Python's decoder accepts in a request); loading project files whose float
+entries overflow or are those words.
 Phase "matrix"/unicode: request strings that the server's stdout encoding may be unable to represent -- non-ASCII text
 (Latin-1, BMP, astral pair; \\u-escaped and raw UTF-8), lone / reversed surrogates (incl. the surrogateescape range), NUL --
+and ASCII text that a console-markup renderer on the diagnostics path reads as tags ("[/b]", "x[/tmp]", "[bold red]y\\[z"),
 in every place a request string is echoed or stored (unknown option name, value of an option of each type, reset name / menu
 id, load / save file name, unknown key, version), x the same prior states and probes, x stdout encoding {utf-8, ascii}.
 Phase "seq": all sequences up to depth 3 (thorough 4) over one representative of each response class mixed with valid
@@ -17,8 +24,9 @@ Every in-process server life writes to what a real process has: a byte stream be
 (mck/server.py stdout_encoding), so a reply that cannot be encoded raises out of run_server in the middle of the line
 exactly as it kills the real process.
 
-Oracle (per case): run_server returns normally at EOF; stdout lines == input lines + 1; every line is one strict JSON
-object with `version`; where the documents demand it the reply carries `error`; the captured configuration (values, user
+Oracle (per case): run_server returns normally at EOF; stdout lines == input lines + 1; every line is one STRICT (RFC 8259)
+JSON object with `version` -- parsed with parse_constant raising, so the tokens NaN / Infinity / -Infinity, which Python's
+own json.loads would accept, are "not JSON" (server.parse_reply); where the documents demand it the reply carries `error`; the captured configuration (values, user
 values, choice picks), the files on disk and the replies to the probes equal those of the TWIN history in which just the
 offending entry is removed or -- the other reading the statement allows -- the whole offending request is removed.  In-process stdout is the captured byte-level `sys.stdout`; a subset is
 replayed on a real `python -m kconfserver` (conformance) whose stdout must be byte-identical; the unicode cases run there
@@ -29,7 +37,9 @@ What counts as offending (docs/en/kconfserver/index.rst "Kconfig Symbol Types", 
     version: anything but the integers 1..3.     set: anything but an object.   reset: anything but an array of strings.
     load / save: anything but null or a string; strings are paths and may fail.
     set entries -- bool: only true/false;  int: JSON integers ("3" tolerated);  hex: JSON integers or a string of hex
-    digits;  float: JSON numbers except overflowing ones ("3" tolerated);  string: JSON strings (numbers tolerated);
+    digits;  float: JSON numbers that a double can hold (an overflowing literal or integer, NaN / Infinity are offending;
+    a string that spells a representable JSON number is tolerated, one that spells an overflowing number or a non-finite
+    word is offending);  string: JSON strings (numbers tolerated);
     unknown and invisible options.   "tolerated" = either ignored or applied exactly like the canonical form.
     Numbers outside an option's range are documented to be adjusted by the server and are not offending.
 """
@@ -38,6 +48,7 @@ from __future__ import annotations
 
 import itertools
 import json
+import math
 import os
 import re
 from typing import Dict, List, Optional, Tuple
@@ -49,10 +60,13 @@ ID = "C15"
 LEVEL = "exploration"
 RULE = (
     "matrix: every (protocol key | option type) x JSON value alphabet request (plus file-system and non-JSON classes) x 3 "
-    "prior states x (server default version, request version) in {(3,3),(2,2),(1,1)} (thorough: all 9); unicode: 9 "
-    "strings (non-ASCII escaped/raw, lone and reversed surrogates, NUL) x 13..16 echo/store positions x the same priors and "
+    "prior states x (server default version, request version) in {(3,3),(2,2),(1,1)} (thorough: all 9); float limits: "
+    "{float option with a range, without a range} x 17 JSON numbers / bare tokens and 19 strings at and beyond the largest "
+    "double + the words nan / inf / infinity in every capitalisation (infinity: 3 in quick, 256 in thorough), signed and "
+    "blank-padded, in the same priors and pairs; unicode: 12 "
+    "strings (non-ASCII escaped/raw, lone and reversed surrogates, NUL, console-markup-like ASCII) x 13..16 echo/store positions x the same priors and "
     "pairs x stdout encoding {utf-8, ascii}, every server life on a strictly encoding byte-level stdout; seq: all sequences "
-    "of length <= 3 (thorough 4) over 18 representatives (one per response class + valid requests). One fresh real server "
+    "of length <= 3 (thorough 4) over 19 representatives (one per response class + valid requests). One fresh real server "
     "per case and per twin. distinct_nontrivial = distinct (request class, prior state, protocol pair, reply line) for "
     "matrix cases and distinct (sequence of request classes, final configuration) for sequences."
 )
@@ -62,6 +76,10 @@ ASSUMPTIONS = [
     "a failed load/save must not change which file later `load`/`save` null use (checked through the probe `save` null); "
     "reported under its own kind session_differs_from_twin (request_class load:failed / save:failed)",
     "numbers outside an option's range are not offending (the protocol document says the server adjusts them)",
+    "a number no double can hold is 'out of range' for every float option, with or without a `range` (the protocol document: "
+    "float values are IEEE 754 doubles), in whatever JSON form it arrives; strings that Python's float() would read as a "
+    "finite number but that are not JSON number spellings (' 1.5', '+1', '1_0') are not generated (documents silent)",
+    "loading a project file with non-finite float entries: only liveness, reply count and strict reply shape are demanded",
     "the protocol is JSON lines on stdout of a process whose stdout encoding the client chooses (UTF-8 or a legacy / ASCII "
     "code page): a reply must be encodable whatever strings the request carried; request LINES are pure ASCII (\\u escapes) "
     "except the raw-UTF-8 variant, which is only generated for a UTF-8 stdin. Bytes on stdin that are not valid in the "
@@ -71,6 +89,66 @@ ASSUMPTIONS = [
 ]
 
 VALS = ["null", "true", "0", "-1", "3", "4", "1.5", "1e999", '""', '"x"', '"3"', "[]", '["x"]', "[1]", "{}", '{"A":1}']
+
+
+_JSON_NUMBER = re.compile(r"-?(0|[1-9][0-9]*)(\.[0-9]+)?([eE][+-]?[0-9]+)?")
+
+
+def caps(word: str) -> List[str]:
+    """every capitalisation of a word"""
+    return ["".join(t) for t in itertools.product(*[(c.lower(), c.upper()) for c in word])]
+
+
+def float_vals(tier: str) -> List[Tuple[str, str]]:
+    """(tag, raw JSON value): numeric request values at and beyond what a double can hold, as JSON numbers and as strings,
+    and the non-finite words in every capitalisation.  Sent to the float option with a range and to the one without."""
+    big = "1" + "0" * 308  # 10**308 as a JSON integer: the largest power of ten a double holds
+    nums = [
+        ("at_limit", "1e308"),
+        ("at_limit", "-1e308"),
+        ("at_limit", "1.7976931348623157e308"),  # the largest double
+        ("at_limit", big),
+        ("at_limit", "-" + big),
+        ("underflow", "5e-324"),
+        ("underflow", "1e-400"),
+        ("overflow", "1e309"),
+        ("overflow", "-1e309"),
+        ("overflow", "-1e999"),
+        ("overflow", "1.7976931348623159e308"),  # rounds up to infinity
+        ("overflow", big + "0"),  # JSON integers beyond the largest double
+        ("overflow", "-" + big + "0"),
+        ("overflow", "1" + "0" * 400),
+        # what Python's decoder accepts beyond RFC 8259: the bare words
+        ("nonfinite_token", "NaN"),
+        ("nonfinite_token", "Infinity"),
+        ("nonfinite_token", "-Infinity"),
+    ]
+    strs = [
+        ("at_limit", "1e308"),
+        ("at_limit", "-1e308"),
+        ("at_limit", "1.7976931348623157e308"),
+        ("at_limit", big),
+        ("underflow", "1e-400"),
+        ("overflow", "1e309"),
+        ("overflow", "-1e309"),
+        ("overflow", "1e999"),
+        ("overflow", "-1e999"),
+        ("overflow", "+1e999"),
+        ("overflow", "1E999"),
+        ("overflow", "1e+999"),
+        ("overflow", "-1E+999"),
+        ("overflow", " 1e999"),
+        ("overflow", "1e999 "),
+        ("overflow", "1.7976931348623159e308"),
+        ("overflow", big + "0"),
+        ("overflow", "1" + "0" * 400),
+        ("overflow", "-1" + "0" * 400 + ".0"),
+    ]
+    words = caps("nan") + caps("inf") + (caps("infinity") if tier != "quick" else ["infinity", "Infinity", "INFINITY"])
+    words += [sg + w for sg in "-+" for w in ("nan", "NaN", "NAN", "inf", "Inf", "INF", "infinity", "Infinity", "INFINITY")]
+    words += [" inf", "nan ", "-Inf "]
+    strs += [("nonfinite_word", w) for w in words]
+    return nums + [(tag, json.dumps(v)) for tag, v in strs]
 
 
 def jtype(raw: str) -> str:
@@ -105,6 +183,7 @@ def tree() -> Dict[str, str]:
                 Cfg("H", "hex", prompt="h", defaults=[(L("0x10"), None)]),
                 Cfg("S", "string", prompt="s", defaults=[(L('"s0"'), None)]),
                 Cfg("F", "float", prompt="f", ranges=[(L("-2.0"), L("8.0"), None)], defaults=[(L("1.5"), None)]),
+                Cfg("FN", "float", prompt="fn", defaults=[(L("0.5"), None)]),  # float WITHOUT a range: nothing clamps / refuses by range
                 Cfg("DEP", "int", prompt="dep", depends=[S("B")], defaults=[(L("1"), None)]),
                 Cfg("GATE", "bool"),  # no prompt, no default: always n
                 Cfg("INV", "int", prompt="inv", depends=[S("GATE")], defaults=[(L("2"), None)]),  # never visible
@@ -117,7 +196,14 @@ def tree() -> Dict[str, str]:
 
 SDK0 = "CONFIG_I=4\n"
 HAND = 'CONFIG_H=0x20\nCONFIG_F=2.5\nCONFIG_MI=9\nCONFIG_S="hand"\n'
-AUX = {"hand": HAND, "dir": None, "binary": b"CONFIG_I=5\n\xff\xfe\xfa\nCONFIG_MI=3\n"}
+AUX = {
+    "hand": HAND,
+    "dir": None,
+    "binary": b"CONFIG_I=5\n\xff\xfe\xfa\nCONFIG_MI=3\n",
+    # project files whose float entries are not finite numbers (the reply to the load must still be strict JSON)
+    "fover": "CONFIG_FN=1e999\nCONFIG_F=-1e999\nCONFIG_MI=3\n",
+    "fword": "CONFIG_FN=inf\nCONFIG_F=nan\nCONFIG_MI=3\n",
+}
 
 PRIORS = [
     [],
@@ -126,7 +212,7 @@ PRIORS = [
 ]
 PROBES = ['{"version": 3, "set": {"MI": 8}}', '{"version": 3, "save": null}']
 
-OPTS = {"bool": "B", "int": "I", "hex": "H", "string": "S", "float": "F"}
+OPTS = {"bool": "B", "int": "I", "hex": "H", "string": "S", "float": "F", "float_norange": "FN"}
 SIB = '"B2": false'  # valid sibling entry
 
 
@@ -145,13 +231,25 @@ def classify_entry(t: str, raw: str) -> Tuple[str, Optional[str]]:
         if jt == "int" or raw == '"3"':
             return "valid", None
         return "invalid", None
-    if t == "float":
-        if raw == "1e999":
-            return "invalid", None
+    if t in ("float", "float_norange"):
+        v = json.loads(raw)  # Python's decoder maps an overflowing literal (and the bare words NaN / Infinity) to inf / nan
         if jt in ("int", "float"):
-            return "valid", None
-        if raw == '"3"':
-            return "tolerated", "3"
+            try:
+                finite = math.isfinite(float(v))
+            except OverflowError:  # a JSON integer beyond the largest double
+                finite = False
+            return ("valid", None) if finite else ("invalid", None)
+        if jt == "string":
+            if _JSON_NUMBER.fullmatch(v):
+                # the string form of a JSON number: tolerated if that number is representable, else out of range
+                return ("tolerated", v) if math.isfinite(float(v)) else ("invalid", None)
+            try:
+                finite = math.isfinite(float(v))
+            except ValueError:
+                return "invalid", None  # not a number at all
+            if finite:
+                raise ValueError(f"{raw}: neither a JSON number spelling nor offending -- the documents are silent, do not generate")
+            return "invalid", None  # inf / nan words, overflowing literals with sign / blanks / upper-case exponent
         return "invalid", None
     if t == "string":
         if jt == "string":
@@ -167,7 +265,7 @@ def case(cls: str, line: str, twin: Optional[str], expect: str, need_error: bool
     return {"cls": cls, "line": line, "twin": twin, "expect": expect, "need_error": need_error, "canon": canon}
 
 
-def matrix(rv: int) -> List[dict]:
+def matrix(rv: int, tier: str = "quick") -> List[dict]:
     out: List[dict] = []
     V = f'"version": {rv}'
     ok_set = f'{{{V}, "set": {{{SIB}}}}}'
@@ -188,16 +286,19 @@ def matrix(rv: int) -> List[dict]:
         else:
             out.append(case(f"set<-{jt}", f'{{{V}, "load": "$D/hand", "set": {raw}}}', f'{{{V}, "load": "$D/hand"}}', "invalid"))
     # ---- set entries
-    for t, name in OPTS.items():
-        for raw in VALS + ["false"]:
-            kind, canon = classify_entry(t, raw)
-            for paired in (False, True):
-                pre = f"{SIB}, " if paired else ""
-                line = f'{{{V}, "set": {{{pre}"{name}": {raw}}}}}'
-                twin = ok_set if paired else None
-                cn = f'{{{V}, "set": {{{pre}"{name}": {canon}}}}}' if canon is not None else None
-                cls = f"set:{t}<-{jtype(raw)}" + ("" if kind != "tolerated" else ":tolerated") + ("+sibling" if paired else "")
-                out.append(case(cls, line, twin, "tolerated" if kind == "tolerated" else kind, canon=cn))
+    entries = [(t, "", raw) for t in OPTS for raw in VALS + ["false"]]
+    # float options (with / without a range) x the limits of the representable range and the non-finite words
+    entries += [(t, f"[{tag}]", raw) for t in ("float", "float_norange") for tag, raw in float_vals(tier)]
+    for t, tag, raw in entries:
+        name = OPTS[t]
+        kind, canon = classify_entry(t, raw)
+        for paired in (False, True):
+            pre = f"{SIB}, " if paired else ""
+            line = f'{{{V}, "set": {{{pre}"{name}": {raw}}}}}'
+            twin = ok_set if paired else None
+            cn = f'{{{V}, "set": {{{pre}"{name}": {canon}}}}}' if canon is not None else None
+            cls = f"set:{t}<-{jtype(raw)}{tag}" + ("" if kind != "tolerated" else ":tolerated") + ("+sibling" if paired else "")
+            out.append(case(cls, line, twin, "tolerated" if kind == "tolerated" else kind, canon=cn))
     for paired in (False, True):
         pre = f"{SIB}, " if paired else ""
         sfx = "+sibling" if paired else ""
@@ -239,6 +340,10 @@ def matrix(rv: int) -> List[dict]:
     for cls, path in (("load:missing_file", "$D/missing"), ("load:directory", "$D/dir"), ("load:undecodable_file", "$D/binary")):
         out.append(case(cls, f'{{{V}, "load": "{path}", "set": {{{SIB}}}}}', ok_set, "invalid", need_error=True))
     out.append(case("load:file", f'{{{V}, "load": "$D/hand"}}', None, "valid"))
+    # project files whose float entries overflow / are the non-finite words: what the server makes of them is not documented,
+    # the reply (and the replies to the probes) must nevertheless be protocol JSON
+    out.append(case("load:file_with_overflowing_float", f'{{{V}, "load": "$D/fover"}}', None, "valid"))
+    out.append(case("load:file_with_nonfinite_word_float", f'{{{V}, "load": "$D/fword"}}', None, "valid"))
     # ---- save
     for raw in VALS:
         jt = jtype(raw)
@@ -269,7 +374,7 @@ def matrix(rv: int) -> List[dict]:
         ("nonjson:huge_integer_toplevel", "1" * 5000),
     ):
         out.append(case(cls, line, None, "invalid", need_error=True))
-    for raw in ("null", "true", "5", "1.5", '"x"', '"version"', "[]", "[1]"):
+    for raw in ("null", "true", "5", "1.5", '"x"', '"version"', "[]", "[1]", "1e999", "NaN", "-Infinity"):
         out.append(case(f"toplevel<-{jtype(raw)}" + (":'version'" if raw == '"version"' else ""), raw, None, "invalid", need_error=True))
     return out
 
@@ -285,6 +390,11 @@ USTR = [
     ("lone_low_surrogate_dc80", "\\udc80"),  # the range `surrogateescape` maps to raw bytes 0x80..0xff
     ("reversed_pair", "\\ude00\\ud83d"),
     ("nul", "a\\u0000b"),
+    # plain ASCII that a console-markup renderer on the diagnostics path would read as tags (an unmatched closing tag, an
+    # opening tag, an escaped bracket): echoed client text must reach the reply verbatim and must not stop the server
+    ("markup_closing_tag", "[/b]"),
+    ("markup_path_like_tag", "x[/tmp]"),
+    ("markup_opening_tag", "[bold red]y\\\\[z"),
 ]
 # the same kind of text written raw (UTF-8 on the wire): only deliverable when stdin decodes UTF-8
 USTR_RAW = [("raw_utf8", "caf\u00e9 \u4e16\u754c \U0001f600")]
@@ -299,6 +409,9 @@ UGROUP = {
     "lone_low_surrogate_dc80": "lone_surrogate",
     "reversed_pair": "lone_surrogate",
     "nul": "nul",
+    "markup_closing_tag": "console_markup",
+    "markup_path_like_tag": "console_markup",
+    "markup_opening_tag": "console_markup",
 }
 
 
@@ -352,6 +465,7 @@ def representatives() -> List[Tuple[str, str, Optional[str], str]]:
         ("bad:reset_unknown", f'{{{V}, "reset": ["NOPE", "no-such-menu-1"]}}', None, "reset:unknown_symbol"),
         ("bad:reset_v2", '{"version": 2, "reset": ["I"]}', None, "reset:unsupported_protocol"),
         ("bad:hex_float", f'{{{V}, "set": {{"H": 1.5}}}}', None, "set:hex<-float"),
+        ("bad:float_overflow", f'{{{V}, "set": {{"FN": "-1e999", "MI": 2}}}}', f'{{{V}, "set": {{"MI": 2}}}}', "set:float_norange<-string[overflow]"),
         ("bad:unencodable_name", f'{{{V}, "set": {{"NOPE\\ud83d": 1, "S": "t"}}}}', f'{{{V}, "set": {{"S": "t"}}}}', "set:unknown_option[lone_surrogate]"),
     ]
 
@@ -364,7 +478,7 @@ CHUNK = 12
 def items(tier: str, seed: int):
     out: List[dict] = []
     for dv, rv in PAIRS_QUICK if tier == "quick" else PAIRS_ALL:
-        cases = matrix(rv)
+        cases = matrix(rv, tier)
         for i in range(0, len(cases), CHUNK):
             out.append({"phase": "matrix", "dv": dv, "rv": rv, "cases": cases[i : i + CHUNK]})
     for dv, rv in PAIRS_QUICK if tier == "quick" else PAIRS_ALL:
@@ -479,7 +593,8 @@ def check_case(r: common.Result, dv: int, rv: int, pi: int, c: dict, enc: str = 
         cls += f"@{enc}-stdout"
     reqs = prior + [c["line"]] + PROBES
     cs = {"phase": "matrix", "dv": dv, "rv": rv, "prior": pi, "enc": enc, "case": c}
-    ctx = f"[dv={dv} prior#{pi} stdout={enc}] {cls}: {c['line']!r}"
+    shown = c["line"] if len(c["line"]) <= 200 else c["line"][:120] + f"...<{len(c['line']) - 160} more>..." + c["line"][-40:]
+    ctx = f"[dv={dv} prior#{pi} stdout={enc}] {cls}: {shown!r}"
     r.evals += 1
 
     def run_(reqs_: List[str], dv_: int) -> server.Run:  # every life of this case (twins too) on the same kind of stdout
